@@ -840,3 +840,288 @@ Proof.
   rewrite E1 in E. injection E as E. replace (auto_filter false [] stream) with stream in E by (symmetry; apply automorphism_filter_exact).
   apply Hs. rewrite <- E. left. reflexivity.
 Qed.
+
+(* ---------- the embeddings in the words of the property: ONE injective map of the whole pattern ---------- *)
+Lemma NoDup_app_intro {T} : forall (a c : list T), NoDup a -> NoDup c -> (forall z, In z a -> In z c -> False) -> NoDup (a ++ c).
+Proof.
+  induction a as [|u a IHa]; intros c Ha Hc Hac; [exact Hc|].
+  inversion Ha as [|? ? Hu Ha']; subst. cbn. constructor.
+  - rewrite in_app_iff. intros [H|H]; [contradiction | apply (Hac u); [left; reflexivity | exact H]].
+  - apply IHa; [exact Ha' | exact Hc |]. intros z H1 H2. apply (Hac z); [right; exact H1 | exact H2].
+Qed.
+
+Lemma NoDup_app_r {T} (a c : list T) : NoDup (a ++ c) -> NoDup c.
+Proof. induction a as [|x a IH]; intros H; [exact H|]. cbn in H. inversion H; subst. apply IH. assumption. Qed.
+
+Lemma Forall2_In_r {S T} (R : S -> T -> Prop) l1 l2 b : Forall2 R l1 l2 -> In b l2 -> exists a, In a l1 /\ R a b.
+Proof.
+  induction 1 as [|a0 b0 l1 l2 H _ IH]; intros Hb; [destruct Hb|]. destruct Hb as [<-|Hb]; [exists a0; split; [left; reflexivity | exact H]|].
+  destruct (IH Hb) as (a & Ha & Hr). exists a. split; [right; exact Ha | exact Hr].
+Qed.
+
+Lemma Forall2_In_l {S T} (R : S -> T -> Prop) l1 l2 a : Forall2 R l1 l2 -> In a l1 -> exists b, In b l2 /\ R a b.
+Proof.
+  induction 1 as [|a0 b0 l1 l2 H _ IH]; intros Ha; [destruct Ha|]. destruct Ha as [<-|Ha]; [exists b0; split; [left; reflexivity | exact H]|].
+  destruct (IH Ha) as (b & Hb & Hr). exists b. split; [right; exact Hb | exact Hr].
+Qed.
+
+Lemma Forall2_exists_l {S T} (P : S -> T -> Prop) : forall (l2 : list T), (forall b, In b l2 -> exists a, P a b) -> exists l1, Forall2 P l1 l2.
+Proof.
+  induction l2 as [|b l2 IH]; intros H; [exists []; constructor|].
+  destruct (H b (or_introl eq_refl)) as [a Ha]. destruct IH as [l1 Hl]; [intros b' Hb'; apply H; right; exact Hb'|].
+  exists (a :: l1). constructor; assumption.
+Qed.
+
+Section Global.
+  Variables QA A QB B : Type.
+  Variable amatch : QA -> A -> bool.
+  Variable bmatch : QB -> B -> bool.
+  Variable q_atoms : list (Z * QA).
+  Variable q_bonds : list (Z * list (Z * QB)).
+  Variable o_atoms : list (Z * A).
+  Variable o_bonds : list (Z * list (Z * B)).
+  Variable tcomps : list (list Z).
+  Variable comps : list (list (lentry QA QB)).
+  Variable clo : closures_t QB.
+  Hypothesis wf_q : wf_adj q_atoms q_bonds.
+  Hypothesis wf_o : wf_adj o_atoms o_bonds.
+  Hypothesis tc_ok : tcomps_ok A B o_atoms o_bonds tcomps.
+  Hypothesis c_ok : compiled_ok q_atoms q_bonds comps clo.
+
+  Notation emb := (induced_embedding amatch bmatch q_atoms q_bonds o_atoms o_bonds).
+  Notation slist := (scope_list A o_atoms).
+  Notation aof := (map (@fst4 QA QB)).
+  Notation membed := (multi_embedding QA A QB B amatch bmatch q_atoms q_bonds o_atoms o_bonds tcomps comps).
+
+  (* two pattern atoms in one pattern component / two target atoms in one target component *)
+  Definition same_qcomp (x1 x2 : Z) : Prop := exists c, In c comps /\ In x1 (aof c) /\ In x2 (aof c).
+  Definition same_tcomp (y1 y2 : Z) : Prop := exists cand, In cand tcomps /\ In y1 cand /\ In y2 cand.
+
+  (* f maps ALL pattern atoms (listed component after component) injectively into the scope, atoms match, for EVERY two
+     pattern atoms bond <-> bond (matching) and no bond <-> no bond, and two pattern atoms lie in one pattern component
+     exactly when their images lie in one target component *)
+  Definition global_embedding (scope : option (list Z)) (f : mapping) : Prop :=
+    emb (concat (map aof comps)) (slist scope) f /\
+    forall x1 y1 x2 y2, In (x1, y1) f -> In (x2, y2) f -> (same_qcomp x1 x2 <-> same_tcomp y1 y2).
+
+  Notation Pc := (fun cand (fi : mapping) => In cand tcomps /\ forall y, In y (image fi) -> In y cand).
+
+  Lemma q_cross c x1 x2 rest : In c comps -> In x1 (aof c) -> In x2 rest -> (forall z, In z (aof c) -> In z rest -> False) ->
+    bond_get q_bonds x1 x2 = None /\ bond_get q_bonds x2 x1 = None /\ ~ same_qcomp x1 x2 /\ ~ same_qcomp x2 x1.
+  Proof.
+    intros Hc H1 H2 Hd. destruct c_ok as (_ & _ & Hcl). destruct wf_q as (_ & _ & _ & _ & _ & Hsym).
+    assert (E : bond_get q_bonds x1 x2 = None).
+    { destruct (bond_get q_bonds x1 x2) as [bd|] eqn:E; [|reflexivity]. exfalso. unfold bond_get in E. apply zget_Some_key in E.
+      apply (Hd x2); [apply (Hcl c x1 x2 Hc H1 E) | exact H2]. }
+    assert (Hs : ~ same_qcomp x1 x2).
+    { intros (c' & Hc' & G1 & G2). assert (c' = c) by (apply (same_comp QA QB q_atoms q_bonds comps clo wf_q c_ok c' c x1); assumption).
+      subst c'. apply (Hd x2 G2 H2). }
+    split; [exact E|]. split; [rewrite <- Hsym; exact E|]. split; [exact Hs|]. intros (c' & Hc' & G1 & G2). apply Hs. exists c'. auto.
+  Qed.
+
+  Lemma o_cross cand cand' y1 y2 : In cand tcomps -> In cand' tcomps -> cand <> cand' -> In y1 cand -> In y2 cand' ->
+    bond_get o_bonds y1 y2 = None /\ bond_get o_bonds y2 y1 = None /\ ~ same_tcomp y1 y2 /\ ~ same_tcomp y2 y1.
+  Proof.
+    intros Hc Hc' Hne H1 H2. destruct tc_ok as (_ & T2 & _ & Td). destruct wf_o as (_ & _ & _ & _ & _ & Hsym).
+    assert (E : bond_get o_bonds y1 y2 = None).
+    { destruct (bond_get o_bonds y1 y2) as [bd|] eqn:E; [|reflexivity]. exfalso. unfold bond_get in E. apply zget_Some_key in E.
+      apply Hne. apply (Td cand cand' y2 Hc Hc'); [apply (T2 cand y1 y2 Hc H1 E) | exact H2]. }
+    assert (Hs : ~ same_tcomp y1 y2).
+    { intros (c'' & Hc'' & G1 & G2). apply Hne. rewrite <- (Td c'' cand y1 Hc'' Hc G1 H1). apply (Td c'' cand' y2 Hc'' Hc' G2 H2). }
+    split; [exact E|]. split; [rewrite <- Hsym; exact E|]. split; [exact Hs|]. intros (c'' & Hc'' & G1 & G2). apply Hs. exists c''. auto.
+  Qed.
+
+  Lemma membed_global_aux scope : forall cs fs, Forall2 (fun c fi => emb (aof c) (slist scope) fi) cs fs ->
+    forall cands, incl cs comps -> NoDup (concat (map aof cs)) -> Forall2 Pc cands fs -> NoDup cands ->
+    emb (concat (map aof cs)) (slist scope) (concat fs) /\
+    (forall x1 y1 x2 y2, In (x1, y1) (concat fs) -> In (x2, y2) (concat fs) -> (same_qcomp x1 x2 <-> same_tcomp y1 y2)) /\
+    (forall x y, In (x, y) (concat fs) -> In x (concat (map aof cs)) /\ exists cand, In cand cands /\ In y cand).
+  Proof.
+    induction 1 as [|c fi cs fs He _ IH]; intros cands Hincl Hn F2 Hnc.
+    - cbn. split; [|split; [intros ? ? ? ? [] | intros ? ? []]].
+      unfold induced_embedding. cbn. split; [reflexivity|]. split; [constructor|]. split; intros; contradiction.
+    - inversion F2 as [|cand fi' cands' fs' [Hcand Him] F2']; subst. inversion Hnc as [|? ? Hcn Hnc']; subst.
+      cbn [map concat] in Hn |- *.
+      assert (Hc : In c comps) by (apply Hincl; left; reflexivity).
+      assert (Hdis : forall z, In z (aof c) -> In z (concat (map aof cs)) -> False) by (intros z; apply (NoDup_app_disj _ _ z Hn)).
+      destruct (IH cands' (fun z Hz => Hincl z (or_intror Hz)) (NoDup_app_r _ _ Hn) F2' Hnc') as (E' & Sep' & Loc').
+      pose proof He as (Hk & Hni & Hat & Hbd). pose proof E' as (Hk' & Hni' & Hat' & Hbd').
+      assert (Hhead : forall x y, In (x, y) fi -> In x (aof c) /\ In y cand).
+      { intros x y Hxy. split; [rewrite <- Hk; apply (in_map fst) in Hxy; exact Hxy | apply Him; apply (in_map snd) in Hxy; exact Hxy]. }
+      assert (Htail : forall x y, In (x, y) (concat fs) -> In x (concat (map aof cs)) /\ exists cand', In cand' tcomps /\ cand <> cand' /\ In y cand').
+      { intros x y Hxy. destruct (Loc' x y Hxy) as (Hx & cand' & Hc' & Hy). split; [exact Hx|]. exists cand'.
+        destruct (Forall2_In_l _ _ _ cand' F2' Hc') as (fj & _ & Ht & _). split; [exact Ht|]. split; [intros ->; contradiction | exact Hy]. }
+      assert (Hcross : forall x1 y1 x2 y2, In (x1, y1) fi -> In (x2, y2) (concat fs) ->
+                bond_get q_bonds x1 x2 = None /\ bond_get q_bonds x2 x1 = None /\ ~ same_qcomp x1 x2 /\ ~ same_qcomp x2 x1 /\
+                bond_get o_bonds y1 y2 = None /\ bond_get o_bonds y2 y1 = None /\ ~ same_tcomp y1 y2 /\ ~ same_tcomp y2 y1).
+      { intros x1 y1 x2 y2 H1 H2. destruct (Hhead _ _ H1) as [Hx1 Hy1]. destruct (Htail _ _ H2) as (Hx2 & cand' & Hc' & Hne & Hy2).
+        destruct (q_cross c x1 x2 _ Hc Hx1 Hx2 Hdis) as (Q1 & Q2 & Q3 & Q4).
+        destruct (o_cross cand cand' y1 y2 Hcand Hc' Hne Hy1 Hy2) as (O1 & O2 & O3 & O4). repeat split; assumption. }
+      split; [|split].
+      + unfold induced_embedding. split; [rewrite map_app, Hk, Hk'; reflexivity|]. split; [|split].
+        * unfold image. rewrite map_app. apply NoDup_app_intro; [exact Hni | exact Hni' |].
+          intros y H1 H2. apply in_map_iff in H1. destruct H1 as ([x1 y1] & E1 & H1). apply in_map_iff in H2. destruct H2 as ([x2 y2] & E2 & H2).
+          cbn in E1, E2. subst y1 y2. destruct (Hhead _ _ H1) as [_ Hy1]. destruct (Htail _ _ H2) as (_ & cand' & Hc' & Hne & Hy2).
+          apply Hne. destruct tc_ok as (_ & _ & _ & Td). apply (Td cand cand' y Hcand Hc' Hy1 Hy2).
+        * intros x y Hxy. apply in_app_or in Hxy. destruct Hxy as [H|H]; [apply (Hat x y H) | apply (Hat' x y H)].
+        * intros x1 y1 x2 y2 H1 H2. apply in_app_or in H1. apply in_app_or in H2. destruct H1 as [H1|H1], H2 as [H2|H2].
+          -- apply (Hbd _ _ _ _ H1 H2).
+          -- destruct (Hcross _ _ _ _ H1 H2) as (Q1 & _ & _ & _ & O1 & _). rewrite Q1, O1. exact I.
+          -- destruct (Hcross _ _ _ _ H2 H1) as (_ & Q2 & _ & _ & _ & O2 & _). rewrite Q2, O2. exact I.
+          -- apply (Hbd' _ _ _ _ H1 H2).
+      + intros x1 y1 x2 y2 H1 H2. apply in_app_or in H1. apply in_app_or in H2. destruct H1 as [H1|H1], H2 as [H2|H2].
+        * destruct (Hhead _ _ H1) as [Hx1 Hy1]. destruct (Hhead _ _ H2) as [Hx2 Hy2].
+          split; intros _; [exists cand | exists c]; auto.
+        * destruct (Hcross _ _ _ _ H1 H2) as (_ & _ & Q3 & _ & _ & _ & O3 & _). tauto.
+        * destruct (Hcross _ _ _ _ H2 H1) as (_ & _ & _ & Q4 & _ & _ & _ & O4). tauto.
+        * apply (Sep' _ _ _ _ H1 H2).
+      + intros x y Hxy. apply in_app_or in Hxy. destruct Hxy as [H|H].
+        * destruct (Hhead _ _ H) as [Hx Hy]. split; [apply in_or_app; left; exact Hx | exists cand; split; [left; reflexivity | exact Hy]].
+        * destruct (Loc' x y H) as (Hx & cand' & Hc' & Hy). split; [apply in_or_app; right; exact Hx | exists cand'; split; [right; exact Hc' | exact Hy]].
+  Qed.
+
+  Lemma comps_concat_NoDup : NoDup (concat (map aof comps)).
+  Proof. destruct c_ok as (P & _). apply (Permutation_NoDup (Permutation_sym P)). apply wf_q. Qed.
+
+  Theorem membed_is_global scope f : membed scope f -> global_embedding scope f.
+  Proof.
+    intros (fs & cands & -> & F1 & F2 & Hn).
+    destruct (membed_global_aux scope comps fs F1 cands (incl_refl _) comps_concat_NoDup F2 Hn) as (E & Sep & _).
+    split; assumption.
+  Qed.
+
+  (* ---- the converse: cut a global embedding into its components ---- *)
+  Lemma split_by_keys : forall (cs : list (list (lentry QA QB))) (f : mapping), map fst f = concat (map aof cs) ->
+    exists fs, f = concat fs /\ Forall2 (fun c (fi : mapping) => map fst fi = aof c) cs fs.
+  Proof.
+    induction cs as [|c cs IH]; intros f H.
+    - cbn in H. destruct f; [|discriminate]. exists []. split; [reflexivity | constructor].
+    - cbn [map concat] in H. apply map_eq_app in H. destruct H as (f1 & f2 & -> & H1 & H2).
+      destruct (IH f2 H2) as (fs & -> & F). exists (f1 :: fs). split; [reflexivity | constructor; assumption].
+  Qed.
+
+  Lemma NoDup_map_app_l {S T} (g : S -> T) (a c : list S) : NoDup (map g (a ++ c)) -> NoDup (map g a).
+  Proof. rewrite map_app. apply NoDup_app_l. Qed.
+
+  (* pieces of one map that respects the components go to pairwise different target components *)
+  Lemma cands_NoDup_aux (f : mapping) :
+    (forall x1 y1 x2 y2, In (x1, y1) f -> In (x2, y2) f -> same_tcomp y1 y2 -> same_qcomp x1 x2) ->
+    forall cs' fs', Forall2 (fun c (fi : mapping) => map fst fi = aof c) cs' fs' ->
+    forall cands, Forall2 Pc cands fs' ->
+    (forall fi, In fi fs' -> incl fi f) ->
+    (forall fi, In fi fs' -> exists c x0 y0 r, In c comps /\ map fst fi = aof c /\ fi = (x0, y0) :: r) ->
+    NoDup (concat (map aof cs')) -> NoDup cands.
+  Proof.
+    intros Sep. induction 1 as [|c fi cs' fs' Hkc FK' IH]; intros cands F2 Hsub Hne Hn;
+      inversion F2 as [|cand ? cands' ? [Hcand Him] F2']; subst; constructor.
+    - intros Hin. destruct (Forall2_In_l _ _ _ cand F2' Hin) as (fj & Hfj & _ & Himj).
+      destruct (Hne fi (or_introl eq_refl)) as (ci & xi & yi & ri & Hci & Hki & Ei).
+      destruct (Hne fj (or_intror Hfj)) as (cj & xj & yj & rj & Hcj & Hkj & Ej).
+      assert (Hi : In (xi, yi) fi) by (rewrite Ei; left; reflexivity). assert (Hj : In (xj, yj) fj) by (rewrite Ej; left; reflexivity).
+      assert (Hs : same_tcomp yi yj).
+      { exists cand. split; [exact Hcand|]. split; [apply Him; apply (in_map snd) in Hi; exact Hi | apply Himj; apply (in_map snd) in Hj; exact Hj]. }
+      apply (Sep xi yi xj yj (Hsub fi (or_introl eq_refl) _ Hi) (Hsub fj (or_intror Hfj) _ Hj)) in Hs.
+      destruct Hs as (c'' & Hc'' & G1 & G2).
+      assert (Hxi : In xi (aof ci)) by (rewrite <- Hki; apply (in_map fst) in Hi; exact Hi).
+      assert (c'' = ci) by (apply (same_comp QA QB q_atoms q_bonds comps clo wf_q c_ok c'' ci xi); assumption). subst c''.
+      cbn [map concat] in Hn. apply (NoDup_app_disj _ _ xj Hn).
+      + rewrite <- Hkc, Hki. exact G2.
+      + destruct (Forall2_In_r _ _ _ fj FK' Hfj) as (c2 & Hc2 & Hk2). apply in_concat. exists (aof c2). split; [apply in_map; exact Hc2|].
+        rewrite <- Hk2. apply (in_map fst) in Hj. exact Hj.
+    - apply (IH cands' F2'); [intros g Hg; apply Hsub; right; exact Hg | intros g Hg; apply Hne; right; exact Hg |].
+      cbn [map concat] in Hn. apply (NoDup_app_r _ _ Hn).
+  Qed.
+
+  Theorem global_is_membed scope f : global_embedding scope f -> membed scope f.
+  Proof.
+    intros ((Hk & Hni & Hat & Hbd) & Sep).
+    destruct (split_by_keys comps f Hk) as (fs & -> & FK).
+    pose proof c_ok as (_ & Hl & _). pose proof tc_ok as (T1 & _ & _ & Td).
+    (* every piece is an embedding of its component *)
+    assert (Hpiece : forall cs' fs', Forall2 (fun c (fi : mapping) => map fst fi = aof c) cs' fs' -> (forall fi, In fi fs' -> incl fi (concat fs)) ->
+              NoDup (image (concat fs')) -> Forall2 (fun c fi => emb (aof c) (slist scope) fi) cs' fs').
+    { induction 1 as [|c fi cs' fs' Hkc _ IH]; intros Hin Hnd; constructor.
+      - unfold induced_embedding. split; [exact Hkc|]. split; [cbn in Hnd; apply (NoDup_map_app_l snd _ _ Hnd)|]. split.
+        + intros x y Hxy. apply (Hat x y). apply (Hin fi (or_introl eq_refl)). exact Hxy.
+        + intros x1 y1 x2 y2 H1 H2. apply Hbd; apply (Hin fi (or_introl eq_refl)); assumption.
+      - apply IH; [intros g Hg; apply Hin; right; exact Hg|]. cbn in Hnd. unfold image in Hnd. rewrite map_app in Hnd. apply (NoDup_app_r _ _ Hnd). }
+    assert (Hsub : forall fi, In fi fs -> incl fi (concat fs)) by (intros fi Hfi z Hz; apply in_concat; exists fi; split; assumption).
+    pose proof (Hpiece comps fs FK Hsub Hni) as F1.
+    (* the target component of every piece *)
+    assert (Hne : forall fi, In fi fs -> exists c x0 y0 r, In c comps /\ map fst fi = aof c /\ fi = (x0, y0) :: r).
+    { intros fi Hfi. destruct (Forall2_In_r _ _ _ fi FK Hfi) as (c & Hc & Hkc). destruct (Hl c Hc) as [Hcn _].
+      destruct fi as [|[x0 y0] r]; [destruct c; [congruence | discriminate]|]. exists c, x0, y0, r. auto. }
+    assert (Hex : forall fi, In fi fs -> exists cand, Pc cand fi).
+    { intros fi Hfi. destruct (Hne fi Hfi) as (c & x0 & y0 & r & Hc & Hkc & ->).
+      assert (H0 : In (x0, y0) (concat fs)) by (apply (Hsub _ Hfi); left; reflexivity).
+      destruct (Hat x0 y0 H0) as (_ & qa & oa & _ & Ho & _). destruct (T1 y0 (zget_Some_key _ _ _ Ho)) as (cand & Hcand & Hy0).
+      exists cand. split; [exact Hcand|]. intros y Hy. unfold image in Hy. apply in_map_iff in Hy. destruct Hy as ([x y'] & E & Hxy). cbn in E. subst y'.
+      assert (Hs : same_qcomp x0 x).
+      { exists c. split; [exact Hc|]. rewrite <- Hkc. split; [left; reflexivity | apply (in_map fst) in Hxy; exact Hxy]. }
+      apply (Sep x0 y0 x y H0 (Hsub _ Hfi _ Hxy)) in Hs. destruct Hs as (cand' & Hc' & G1 & G2).
+      rewrite (Td cand cand' y0 Hcand Hc' Hy0 G1). exact G2. }
+    destruct (Forall2_exists_l _ fs Hex) as [cands F2].
+    exists fs, cands. split; [reflexivity|]. split; [exact F1|]. split; [exact F2|].
+    apply (cands_NoDup_aux (concat fs)) with (cs' := comps) (fs' := fs); try assumption; [|apply comps_concat_NoDup].
+    intros x1 y1 x2 y2 H1 H2 Hs. apply (Sep x1 y1 x2 y2 H1 H2). exact Hs.
+  Qed.
+
+  Theorem multi_embedding_iff_global scope f : membed scope f <-> global_embedding scope f.
+  Proof. split; [apply membed_is_global | apply global_is_membed]. Qed.
+End Global.
+
+(* pattern.get_mapping(target, automorphism_filter=False, searching_scope=scope) in the words of the property *)
+Theorem get_mapping_global_exact : forall (QA A QB B : Type) (amatch : QA -> A -> bool) (bmatch : QB -> B -> bool)
+    (q_atoms : list (Z * QA)) (q_bonds : list (Z * list (Z * QB))) (o_atoms : list (Z * A)) (o_bonds : list (Z * list (Z * B)))
+    (tcomps : list (list Z)),
+  wf_adj q_atoms q_bonds -> wf_adj o_atoms o_bonds -> tcomps_ok A B o_atoms o_bonds tcomps ->
+  exists comps clo, compile_query q_atoms q_bonds = Ok (comps, clo) /\
+    Permutation (concat (map (map fst4) comps)) (keys q_atoms) /\
+    forall scope, exists res,
+      mol_get_mapping amatch bmatch q_atoms q_bonds o_atoms o_bonds tcomps false scope = Ok res /\
+      NoDup res /\
+      forall f, In f res <-> global_embedding QA A QB B amatch bmatch q_atoms q_bonds o_atoms o_bonds tcomps comps scope f.
+Proof.
+  intros QA A QB B amatch bmatch q_atoms q_bonds o_atoms o_bonds tcomps Wq Wo Tc.
+  destruct (compile_query_total QA QB q_atoms q_bonds Wq) as (comps & clo & Hc). exists comps, clo. split; [exact Hc|].
+  pose proof (compile_query_spec _ _ _ _ Wq _ _ Hc) as Hok. split; [apply Hok|]. intros scope.
+  destruct (get_mapping_filtered_exact QA A QB B amatch bmatch q_atoms q_bonds o_atoms o_bonds tcomps Wq Wo Tc comps clo scope Hc)
+    as (_ & res & E & Hn & Hs).
+  exists res. split; [exact E|]. split; [exact Hn|]. intros f. rewrite (Hs f).
+  apply (multi_embedding_iff_global QA A QB B amatch bmatch q_atoms q_bonds o_atoms o_bonds tcomps comps clo Wq Wo Tc Hok).
+Qed.
+
+(* is_equal answers True only for isomorphic graphs: the embedding found is then a bijection between ALL atoms of the two
+   graphs that preserves atoms and, in both directions, bonds.  (The converse -- every isomorphism is found -- follows from
+   get_mapping_global_exact only together with `an isomorphism maps components onto components`, which is not proved here;
+   the brute-force search covers it.) *)
+Theorem is_equal_true_isomorphism : forall (QA A QB B : Type) (amatch : QA -> A -> bool) (bmatch : QB -> B -> bool)
+    (q_atoms : list (Z * QA)) (q_bonds : list (Z * list (Z * QB))) (o_atoms : list (Z * A)) (o_bonds : list (Z * list (Z * B)))
+    (tcomps : list (list Z)),
+  wf_adj q_atoms q_bonds -> wf_adj o_atoms o_bonds -> tcomps_ok A B o_atoms o_bonds tcomps ->
+  is_equal amatch bmatch q_atoms q_bonds o_atoms o_bonds tcomps = Ok true ->
+  exists f : mapping,
+    Permutation (map fst f) (keys q_atoms) /\ Permutation (image f) (keys o_atoms) /\
+    (forall x y, In (x, y) f -> exists qa oa, zget q_atoms x = Some qa /\ zget o_atoms y = Some oa /\ amatch qa oa = true) /\
+    (forall x1 y1 x2 y2, In (x1, y1) f -> In (x2, y2) f ->
+       match bond_get q_bonds x1 x2, bond_get o_bonds y1 y2 with
+       | Some qb, Some ob => bmatch qb ob = true
+       | None, None => True
+       | _, _ => False
+       end).
+Proof.
+  intros QA A QB B amatch bmatch q_atoms q_bonds o_atoms o_bonds tcomps Wq Wo Tc He.
+  destruct (compile_query_total QA QB q_atoms q_bonds Wq) as (comps & clo & Hc).
+  pose proof (compile_query_spec _ _ _ _ Wq _ _ Hc) as Hok.
+  destruct (is_equal_iff QA A QB B amatch bmatch q_atoms q_bonds o_atoms o_bonds tcomps Wq Wo Tc comps clo Hc) as (b & E & Hb).
+  rewrite He in E. injection E as <-. destruct (proj1 Hb eq_refl) as (Hlen & f & Hf).
+  apply (multi_embedding_iff_global QA A QB B amatch bmatch q_atoms q_bonds o_atoms o_bonds tcomps comps clo Wq Wo Tc Hok) in Hf.
+  destruct Hf as ((Hk & Hni & Hat & Hbd) & _). destruct Hok as (P & _).
+  exists f. split; [rewrite Hk; exact P|]. split; [|split; [|exact Hbd]].
+  - apply NoDup_Permutation_bis; [exact Hni | |].
+    + unfold image, keys. rewrite !map_length. rewrite <- Hlen.
+      rewrite <- (map_length fst f), Hk, (Permutation_length P). unfold keys. rewrite map_length. apply le_n.
+    + intros y Hy. unfold image in Hy. apply in_map_iff in Hy. destruct Hy as ([x y'] & E & Hxy). cbn in E. subst y'.
+      destruct (Hat x y Hxy) as (_ & qa & oa & _ & Ho & _). apply zget_Some_key in Ho. exact Ho.
+  - intros x y Hxy. destruct (Hat x y Hxy) as (_ & H). exact H.
+Qed.
